@@ -75,6 +75,7 @@ int select(int nfds, fd_set *r, fd_set *w, fd_set *e, struct timeval *tv) {
 
 int main(int argc, char **argv) {
   if (argc < 2) return 64;
+  alarm(300); /* never outlive the harness: a module that loops for ever must not keep a core busy after the run */
   FILE *f = fopen(argv[1], "r");
   if (!f) return 65;
   char line[20000];
